@@ -34,7 +34,9 @@ META = dict(
     assumptions=["RELY: every thread changes copy->readers only through parsec_dtd_data_copy_reader_retain/_release (+-1 steps) and never takes "
                  "it below 0 (the callers in overlap_strategies.c / insert_function.c release only what they retained: NOT checked here)",
                  "GAP: that every reader inserted before a writer has RETAINED the copy before the writer can be selected for execution is "
-                 "established by parsec_dtd_ordering_correctly (overlap_strategies.c) and is not under contract",
+                 "established by parsec_dtd_ordering_correctly (overlap_strategies.c) and is not under contract; seeded change C04-r2 "
+                 "(chain element classified by the previous element's flow index) is therefore not detected (h_chain.c is an unregistered, "
+                 "unfinished harness for it: symbolic execution does not terminate in the budget)",
                  "GAP: writer/writer exclusion and reader-after-writer ordering come from the DTD dependency chain (last_writer / last_user), "
                  "not from this gate: not checked",
                  "GAP: the window between the gate's atomic read and the start of the body (no reader inserted after the writer can retain "
@@ -84,8 +86,14 @@ MANIFEST = dict(
          "all 32-bit values; (3) composed with the real __parsec_task_progress (contract owned by C16) over a bounded number of passes: the "
          "writer's body is not entered in a pass whose gate observed a reader and the writer is re-queued exactly once.  'other' and not "
          "'proof' because the clauses listed in the note are outside the check.",
-    note="NOT decided: that every reader inserted before a writer has retained the copy before the writer becomes selectable "
-         "(parsec_dtd_ordering_correctly in overlap_strategies.c is not under contract); that releases match retains at the call sites; "
+    note="NOT decided: that every reader inserted before a writer has retained the copy before the writer becomes selectable: "
+         "parsec_dtd_ordering_correctly (overlap_strategies.c, the walk over the successor chain at task completion) is NOT under "
+         "contract, and the seeded change C04-r2 in it (2nd and later chain elements classified reader/writer by the PREVIOUS "
+         "element's flow index, so a reader is activated without a reader hold and the next writer starts while a reader is "
+         "pending) is NOT detected by this check.  A harness on the real function exists (h_chain.c: chain T -> E1..En of static "
+         "tasks, postconditions 'each reader activated with its hold taken, walk stops at the first writer, each element classified "
+         "by its own flow') but CBMC's symbolic execution of the walk did not finish in 5-10 min even with 3 elements and concrete "
+         "flow indices, so it is not registered as a job and no claim is made; that releases match retains at the call sites; "
          "writer/writer and reader-after-writer exclusion (dependency chain last_user/last_writer); the window between the gate's read and "
          "the body; 'all schedulers' only through the module interface (stub, C17-C19); device / remote-dependency users of copy->readers; "
          "memory model (sequentially consistent atomics assumed); progress_gate is a bounded composition (2/3 passes, 3/6 flows).",
